@@ -14,3 +14,113 @@ Theorem C11_upd_symmetric : forall (T : Type) (F : fops T),
   upd_of F meth a b md sa sb sx = upd_of F meth b a md sb sa sx.
 Proof. exact upd_symmetric. Qed.
 Print Assumptions C11_upd_symmetric.
+
+(* ---- whole runs of primitive_with (Proofs/PermPrimitive.v) ----
+   M0' is M0 with rows and columns permuted by the bijection pi.  If the run on
+   M0 is tie-free (at every iteration the minimum over the pairs of live
+   clusters is attained once), the two runs merge, step by step, clusters
+   consisting of corresponding observations at EQUAL heights, and the returned
+   height sequences are equal.  Needed of the carrier: `<` transitive and
+   irreflexive, and an update formula symmetric in the two merged clusters
+   (C11_upd_symmetric above). *)
+Require Import KV.Model.Condensed KV.Model.Active KV.Model.Dendrogram KV.Model.State KV.Model.Primitive
+  KV.Proofs.ActiveRefine KV.Proofs.UpdateSpec KV.Proofs.SortProofs KV.Proofs.LWInvariant
+  KV.Proofs.AgreePG KV.Proofs.PermPrimitive KV.Proofs.PermInstances KV.Proofs.QInf.
+From Coq Require Import QArith Permutation.
+Local Close Scope Q_scope.
+
+(* the notions used, pinned *)
+Theorem C11_defs : forall (pi sg : nat -> nat) (L' L : list nat) (A' A : mtree) (ab' ab : mtree * mtree),
+  (bij sg L' L <->
+     (forall x', In x' L' -> In (sg x') L)
+     /\ (forall x' y', In x' L' -> In y' L' -> sg x' = sg y' -> x' = y')
+     /\ (forall x, In x L -> exists x', In x' L' /\ sg x' = x))
+  /\ (lcorr pi A' A <-> Permutation (map pi (leaves A')) (leaves A))
+  /\ (pair_corr pi ab' ab <-> lcorr pi (Node (fst ab') (snd ab')) (Node (fst ab) (snd ab))).
+Proof. intros; split; [|split]; (split; intros Hx; exact Hx). Qed.
+Print Assumptions C11_defs.
+
+Theorem C11_primitive_perm_invariant : forall (T : Type) (K : kops T) (p : profile) (meth : method),
+  (forall a, k_ltb K a a = false) ->
+  (forall a b c, k_ltb K a b = true -> k_ltb K b c = true -> k_ltb K a c = true) ->
+  (uses_sizes_ab meth = false ->
+     forall va vb md sa sb sa' sb' sx, k_upd K va vb md sa sb sx = k_upd K va vb md sa' sb' sx) ->
+  (forall va vb md sa sb sx, k_upd K va vb md sa sb sx = k_upd K vb va md sb sa sx) ->
+  forall (pi : nat -> nat) s1 d1 s2 d2 m m' n sp dp mp sp' dp' mp' M0 M0',
+  prologue p (square_all K m) n = Ok M0 ->
+  prologue p (square_all K m') n = Ok M0' ->
+  m_obs M0' = m_obs M0 ->
+  bij pi (seq 0 (m_obs M0)) (seq 0 (m_obs M0)) ->
+  (forall x y, x < m_obs M0 -> y < m_obs M0 -> x <> y -> wcell M0' x y = wcell M0 (pi x) (pi y)) ->
+  primitive_with K p meth s1 d1 m n = Ok (sp, dp, mp) ->
+  primitive_with K p meth s2 d2 m' n = Ok (sp', dp', mp') ->
+  tie_free_from K p meth 0 (m_obs M0 - 1) (st_reset K s1 (m_obs M0)) (d_reset d1 (m_obs M0)) M0 ->
+  heights dp' = heights dp
+  /\ exists tr' tr Lf' Lf memf' memf,
+       mtrace (seq 0 (m_obs M0)) Leaf tr' Lf' memf' /\ mtrace (seq 0 (m_obs M0)) Leaf tr Lf memf
+       /\ Forall2 (pair_corr pi) tr' tr /\ length tr = m_obs M0 - 1.
+Proof. exact primitive_perm_invariant. Qed.
+Print Assumptions C11_primitive_perm_invariant.
+
+(* the five arithmetic methods, any carrier with commutative + and x *)
+Theorem C11_arith_primitive_perm_invariant : forall (T : Type) (F : fops T) (p : profile),
+  (forall a, f_ltb F a a = false) ->
+  (forall a b c, f_ltb F a b = true -> f_ltb F b c = true -> f_ltb F a c = true) ->
+  (forall x y, f_add F x y = f_add F y x) -> (forall x y, f_mul F x y = f_mul F y x) ->
+  forall meth (pi : nat -> nat) s1 d1 s2 d2 m m' n sp dp mp sp' dp' mp' M0 M0',
+  meth = Average \/ meth = Weighted \/ meth = Ward \/ meth = Centroid \/ meth = Median ->
+  prologue p (square_all (kops_of F meth) m) n = Ok M0 ->
+  prologue p (square_all (kops_of F meth) m') n = Ok M0' ->
+  m_obs M0' = m_obs M0 ->
+  bij pi (seq 0 (m_obs M0)) (seq 0 (m_obs M0)) ->
+  (forall x y, x < m_obs M0 -> y < m_obs M0 -> x <> y -> wcell M0' x y = wcell M0 (pi x) (pi y)) ->
+  primitive_with (kops_of F meth) p meth s1 d1 m n = Ok (sp, dp, mp) ->
+  primitive_with (kops_of F meth) p meth s2 d2 m' n = Ok (sp', dp', mp') ->
+  tie_free_from (kops_of F meth) p meth 0 (m_obs M0 - 1) (st_reset (kops_of F meth) s1 (m_obs M0)) (d_reset d1 (m_obs M0)) M0 ->
+  heights dp' = heights dp
+  /\ exists tr' tr Lf' Lf memf' memf,
+       mtrace (seq 0 (m_obs M0)) Leaf tr' Lf' memf' /\ mtrace (seq 0 (m_obs M0)) Leaf tr Lf memf
+       /\ Forall2 (pair_corr pi) tr' tr /\ length tr = m_obs M0 - 1.
+Proof. exact arith_primitive_perm_invariant. Qed.
+Print Assumptions C11_arith_primitive_perm_invariant.
+
+(* single / complete, any carrier with a total order *)
+Theorem C11_selection_primitive_perm_invariant : forall (T : Type) (F : fops T) (p : profile),
+  (forall a, f_ltb F a a = false) ->
+  (forall a b c, f_ltb F a b = true -> f_ltb F b c = true -> f_ltb F a c = true) ->
+  (forall a b, f_ltb F a b = false -> f_ltb F b a = false -> a = b) ->
+  forall meth (pi : nat -> nat) s1 d1 s2 d2 m m' n sp dp mp sp' dp' mp' M0 M0',
+  meth = Single \/ meth = Complete ->
+  prologue p (square_all (kops_of F meth) m) n = Ok M0 ->
+  prologue p (square_all (kops_of F meth) m') n = Ok M0' ->
+  m_obs M0' = m_obs M0 ->
+  bij pi (seq 0 (m_obs M0)) (seq 0 (m_obs M0)) ->
+  (forall x y, x < m_obs M0 -> y < m_obs M0 -> x <> y -> wcell M0' x y = wcell M0 (pi x) (pi y)) ->
+  primitive_with (kops_of F meth) p meth s1 d1 m n = Ok (sp, dp, mp) ->
+  primitive_with (kops_of F meth) p meth s2 d2 m' n = Ok (sp', dp', mp') ->
+  tie_free_from (kops_of F meth) p meth 0 (m_obs M0 - 1) (st_reset (kops_of F meth) s1 (m_obs M0)) (d_reset d1 (m_obs M0)) M0 ->
+  heights dp' = heights dp
+  /\ exists tr' tr Lf' Lf memf' memf,
+       mtrace (seq 0 (m_obs M0)) Leaf tr' Lf' memf' /\ mtrace (seq 0 (m_obs M0)) Leaf tr Lf memf
+       /\ Forall2 (pair_corr pi) tr' tr /\ length tr = m_obs M0 - 1.
+Proof. exact selection_primitive_perm_invariant. Qed.
+Print Assumptions C11_selection_primitive_perm_invariant.
+
+(* exact rationals with the infinite sentinel: all hypotheses discharged *)
+Theorem C11_QI_primitive_perm_invariant : forall (p : profile) (rt : Q -> Q) meth (pi : nat -> nat)
+  s1 d1 s2 d2 m m' n sp dp mp sp' dp' mp' M0 M0',
+  meth = Average \/ meth = Weighted \/ meth = Ward \/ meth = Centroid \/ meth = Median ->
+  prologue p (square_all (kops_of (QI rt) meth) m) n = Ok M0 ->
+  prologue p (square_all (kops_of (QI rt) meth) m') n = Ok M0' ->
+  m_obs M0' = m_obs M0 ->
+  bij pi (seq 0 (m_obs M0)) (seq 0 (m_obs M0)) ->
+  (forall x y, x < m_obs M0 -> y < m_obs M0 -> x <> y -> wcell M0' x y = wcell M0 (pi x) (pi y)) ->
+  primitive_with (kops_of (QI rt) meth) p meth s1 d1 m n = Ok (sp, dp, mp) ->
+  primitive_with (kops_of (QI rt) meth) p meth s2 d2 m' n = Ok (sp', dp', mp') ->
+  tie_free_from (kops_of (QI rt) meth) p meth 0 (m_obs M0 - 1) (st_reset (kops_of (QI rt) meth) s1 (m_obs M0)) (d_reset d1 (m_obs M0)) M0 ->
+  heights dp' = heights dp
+  /\ exists tr' tr Lf' Lf memf' memf,
+       mtrace (seq 0 (m_obs M0)) Leaf tr' Lf' memf' /\ mtrace (seq 0 (m_obs M0)) Leaf tr Lf memf
+       /\ Forall2 (pair_corr pi) tr' tr /\ length tr = m_obs M0 - 1.
+Proof. exact QI_primitive_perm_invariant. Qed.
+Print Assumptions C11_QI_primitive_perm_invariant.
